@@ -22,6 +22,12 @@ CLAIMED = {
  "C12": dict(sec="6/C12", technique="Lean 4 theorems (iff with reference verdict, stripe verification) + cross-instance correspondence",
    text="Theorems: is_invalid_fragment is true iff header unacceptable / not host order / library version newer / index outside [0,k+m) / backend id differs / backend version not accepted / checksum mismatch; verify_stripe_metadata returns 0 iff no fragment fails the index/id/version/flag test and a negative code otherwise; fresh fragments validate. Tie: cross-instance matrix of real fragments, re-sealed single-field edits (index boundary values, backend id 0..255, versions ±1, library versions, preset mismatch flag).",
    note="genuine defect found and fixed (e6039a3)."),
+ "C13": dict(sec="6/C13", technique="Lean 4 theorems (refusal for all argument vectors, create acceptance iff) + exhaustive argument-class correspondence in forked children",
+   text="Theorems: for every public entry point and every argument vector with an invalid component (dead descriptor, NULL, zero/negative count, length shorter than a header, out-of-range destination) the result is a negative code (1 for the boolean validator), valid vectors are accepted; create succeeds iff backend known and available, k>=1, m>=0, k+m<=32 and the backend's shape rule holds, and every error code is negative; an accepted instance has k>=1, word size >= 1 byte, k+m<=32 (no division by zero, no out-of-range shift); refused create leaves the registry unchanged (C14). Tie: the full product of argument classes per API and the (backend,k,m,hd,w) box run against the real library in forked children under ASan/UBSan (a crash is a result), every accepted instance is driven through encode/decode/queries/destroy.",
+   note="partial: crash-freedom and 'nothing left allocated' of the compiled code are runtime behaviour (observed under sanitizers and by the C16 ledger), not proved. Genuine defects found and fixed: k=0 accepted, m=0 matrix over-read, encode NULL/uninitialised cleanup, reconstruct with out-of-range destination or short fragment_len."),
+ "C14": dict(sec="6/C14", technique="Lean 4 invariant by induction over all create/destroy histories + history correspondence",
+   text="Theorems over the registry state machine: live descriptors are positive and pairwise distinct and the GF-table reference count equals the number of live rs_vand instances after every history (induction over the operation list); a successful create returns a positive descriptor that was not live whatever the counter value (wrap past INT_MAX included); a failed create leaves the state unchanged; destroy makes the descriptor unknown and an unknown descriptor is refused without effect; create/destroy of one instance leaves every other descriptor's instance unchanged; tables present iff an rs_vand instance is live. Tie: bounded-exhaustive and random histories (create/destroy/double destroy/use/query/failed create over 4 slots, counter preset to 0, near INT_MAX and negative) replayed on the real library with exact descriptor values compared, every live instance round-trips after each step.",
+   note="partial: physical isolation of heap objects is runtime behaviour. alloc_desc termination within live+2 iterations is assumed in the model's fuel (the fallback branch returns an error and keeps the invariant). ++next_backend_desc at INT_MAX is signed overflow in C; gcc wraps it, which is what the model describes (UBSan's signed-overflow check is off in the harness build)."),
 }
 
 PENDING = {}
